@@ -1,52 +1,44 @@
 /* C05, the enumeration clause (bounded, exhaustive per shape): "carries a decimal index strictly smaller than N;
- * no index >= N ever matches", with leading zeros and up to 9 digits on both sides.
+ * no index >= N ever matches", with leading zeros and up to 9 digits.
  *
  * Fixed per obligation (-D, chosen in props/C05.py):
- *   C05_PRE   literal text before the enumeration, e.g. "x" or ""
- *   C05_ND    number of digits of N in the pattern      (1..9)
+ *   C05_PAT   the pattern, concrete: PRE '#' N PSUF        e.g. "x#10/", "#999999999y", "x#007:i"
+ *   C05_PRE_L length of PRE (the address starts with the same literal text)
  *   C05_MD    number of digits of the index in the address (1..9)
- *   C05_PSUF  what follows #N in the pattern: "", "/", "y", "/:i", ...
  *   C05_SL    number of address bytes after the index (0..2)
- * Symbolic: every digit of N and of the index (so N-1, N, N+1, leading zeros, 000000000..999999999 are all
- * inside), the address bytes after the index (the first one is not a digit, so the index has exactly C05_MD
- * digits; any literal byte otherwise), the type tag string (0..2 arbitrary tags) and 8 bytes behind it.
- * The pattern lives in an exact-size heap object as well. */
+ * Symbolic: every digit of the index (so for N of d digits and C05_MD >= d: N-1, N, N+1, all leading-zero
+ * spellings, 0..10^MD-1), the address bytes after the index (the first one is not a digit, so the index has
+ * exactly C05_MD digits; any byte but NUL and ':' otherwise), the type tag string (0..2 arbitrary tags), 8 bytes behind it.
+ * (The digits of N stay concrete: symbolic pattern bytes make every `*pattern == '{'` test of the matcher
+ *  symbolic - measured 220 s for the smallest shape instead of 1 s.) */
 #include "verif.h"
 #include <rtosc/rtosc.h>
 #include "pattern_spec.h"
 #include RTOSC_C
 #include DISPATCH_C
 
-#define PRE_L  (sizeof(C05_PRE) - 1)
-#define PSUF_L (sizeof(C05_PSUF) - 1)
-#define PAT_L  (PRE_L + 1 + C05_ND + PSUF_L)
-#define AL     (PRE_L + C05_MD + C05_SL)
+#define AL     (C05_PRE_L + C05_MD + C05_SL)
 #define APAD   ((AL / 4 + 1) * 4)
 #define TOTAL  (APAD + 4 + 8)
 
-struct in_c05i { uint8_t n[9]; uint8_t v[9]; uint8_t suf[2]; uint8_t tl; uint8_t types[2]; uint8_t tail[8]; };
+struct in_c05i { uint8_t v[9]; uint8_t suf[2]; uint8_t tl; uint8_t types[2]; uint8_t tail[8]; };
 V_INPUT(in_c05i)
 
 void h_index(void)
 {
     in_init();
-    static const char pre[] = C05_PRE, psuf[] = C05_PSUF;
-    char *pat = V_MALLOC(PAT_L + 1);
+    static const char pat[] = C05_PAT;
     char *buf = V_MALLOC(TOTAL);
     uint64_t N = 0, V = 0;
     unsigned o = 0;
-    for(unsigned k = 0; k < PRE_L; k++) pat[o++] = pre[k];
-    pat[o++] = '#';
-    for(unsigned k = 0; k < C05_ND; k++) { V_ASSUME(IN.n[k] <= 9); pat[o++] = (char)('0' + IN.n[k]); N = N * 10 + IN.n[k]; }
-    for(unsigned k = 0; k < PSUF_L; k++) pat[o++] = psuf[k];
-    pat[o] = 0;
+    V_ASSERT(pat[C05_PRE_L] == '#', "harness self-check: shape");
+    for(unsigned k = C05_PRE_L + 1; spec_is_digit(pat[k]); k++) N = N * 10 + (uint64_t)(pat[k] - '0');
 
-    o = 0;
-    for(unsigned k = 0; k < PRE_L; k++) buf[o++] = pre[k];
+    for(unsigned k = 0; k < C05_PRE_L; k++) buf[o++] = pat[k];
     for(unsigned k = 0; k < C05_MD; k++) { V_ASSUME(IN.v[k] <= 9); buf[o++] = (char)('0' + IN.v[k]); V = V * 10 + IN.v[k]; }
     for(unsigned k = 0; k < C05_SL; k++) {
         char c = (char)IN.suf[k];
-        V_ASSUME(spec_is_literal(c) && (k > 0 || !spec_is_digit(c)));
+        V_ASSUME(c != 0 && c != ':' && (k > 0 || !spec_is_digit(c)));
         buf[o++] = c;
     }
     for(; o < APAD; o++) buf[o] = 0;
